@@ -116,7 +116,7 @@ where
             let mut ast = AttackStats::default();
             if (e.wrap.is_some() || e.seed_moves) && !e.prog.nonunique {
                 if let Some(actx) = AttackCtx::new(&e.prog, opts.max_bit_len, bud.repair_nodes, 400) {
-                    let n_attacked = if bud.thorough { inputs.len().min(6) } else { 2 };
+                    let n_attacked = if bud.thorough { inputs.len().min(10) } else { 2 };
                     let nb0 = bud.n_boundary.min(inputs.len());
                     let nr0 = (nb0 + bud.n_random).min(inputs.len());
                     // random operands first, then boundary classes and specials
@@ -220,10 +220,10 @@ fn main() {
     );
     let thorough = ctx.tier == Tier::Thorough;
     let mut opts = OpOptions::new("C05", thorough);
-    opts.max_positions = if thorough { 4 } else { 2 };
+    opts.max_positions = if thorough { 5 } else { 2 };
     opts.ars = Some(if thorough {
         ArsBudget {
-            restarts: 3,
+            restarts: 4,
             nodes_per_restart: 1000,
             max_changed: 32,
         }
@@ -239,11 +239,11 @@ fn main() {
     opts_nonunique.max_positions = 0;
     let bud = Budgets {
         thorough,
-        n_boundary: if thorough { 10 } else { 1 },
-        n_random: if thorough { 6 } else { 1 },
+        n_boundary: if thorough { 16 } else { 1 },
+        n_random: if thorough { 12 } else { 1 },
         max_specials: if thorough { 64 } else { 3 },
-        seed_cells: if thorough { 60 } else { 8 },
-        repair_nodes: if thorough { 2500 } else { 600 },
+        seed_cells: if thorough { 120 } else { 8 },
+        repair_nodes: if thorough { 4000 } else { 600 },
         opts,
         opts_nonunique,
     };
